@@ -92,5 +92,36 @@ pub fn self_test() -> Vec<String> {
             bad.push(format!("{} of {:?}: {} != {}", a, d, got, want));
         }
     }
+    // multi-block inputs: one million 'a' (published for MD5, SHA-1, SHA-2 and RIPEMD-160;
+    // BLAKE2s from an independent implementation), and 1000 / 65537 bytes of the drivers'
+    // byte pattern, digests computed with an independent implementation (OpenSSL via Python's
+    // hashlib)
+    let pattern = |n: usize| -> Vec<u8> { (0..n).map(|i| ((i * 7 + 3) % 256) as u8).collect() };
+    let big: Vec<(&str, Vec<u8>, &str)> = vec![
+        ("BLAKE2s", vec![b'a'; 1_000_000], "bec0c0e6cde5b67acb73b81f79a67a4079ae1c60dac9d2661af18e9f8b50dfa5"),
+        ("MD5", vec![b'a'; 1_000_000], "7707d6ae4e027c70eea2a935c2296f21"),
+        ("RMD160", vec![b'a'; 1_000_000], "52783243c1697bdbe16d37f97f68f08325dc1528"),
+        ("SHA1", vec![b'a'; 1_000_000], "34aa973cd4c4daa4f61eeb2bdbad27316534016f"),
+        ("SHA256", vec![b'a'; 1_000_000], "cdc76e5c9914fb9281a1c7e284d73e67f1809a48a497200e046d39ccc7112cd0"),
+        ("SHA512", vec![b'a'; 1_000_000], "e718483d0ce769644e2e42c7bc15b4638e1f98b13b2044285632a803afa973ebde0ff244877ea60a4cb0432ce577c31beb009c5c2c49aa2e4eadb217ad8cc09b"),
+        ("BLAKE2s", pattern(1000), "02a016193469710efadf8fb005ca19b509331cb847df5598cc0794bded669681"),
+        ("MD5", pattern(1000), "10046f077f2082ac19676b8079f1cb1a"),
+        ("RMD160", pattern(1000), "462fa67a8f19c1df2d98cff47379ba31d681b572"),
+        ("SHA1", pattern(1000), "4231a8a50a10fa9758db8ec71fdef855b751048a"),
+        ("SHA256", pattern(1000), "1e9bc38cbf860b9ec31918b065f9b52476c549a782e0e7990bed8ce3868d2371"),
+        ("SHA512", pattern(1000), "00e36fccf193e59697a92b5ab24666ce6326d7fa16bf10832d0991ddc591112e9dfa6a636950ed9c4d67344a760654c2ff7785e1d60094d651038735b5dccabd"),
+        ("BLAKE2s", pattern(65537), "1d6d8791c9ddd7996da479618d4863611477454777cf36d28c9e316d48031e72"),
+        ("MD5", pattern(65537), "8bbe2ba9b420c53493027ed87dbc57c8"),
+        ("RMD160", pattern(65537), "e83499efac58efc532216c6bd376a0983078ab45"),
+        ("SHA1", pattern(65537), "445ae28c60d5dd584606c8f399c2ae4581279c7a"),
+        ("SHA256", pattern(65537), "ad8b370d36508e55e3c9cd44667a6e36e35955d0ff9f8fe59805bb18c2db5dd8"),
+        ("SHA512", pattern(65537), "09ea91cb14254d3769252330d6deed58ac5c5579a7cd22767073c2976e999d0da03590c9fb524859155bcd8eeaf9a14cd1051449b4533f7b37a2abed43c4b44e"),
+    ];
+    for (a, d, want) in big {
+        let got = digest(a, &d);
+        if got != want {
+            bad.push(format!("{} of {} bytes: {} != {}", a, d.len(), got, want));
+        }
+    }
     bad
 }
